@@ -161,9 +161,13 @@ func (r *runner) http(st Step) {
 		case "void": // well-formed as far as the parser goes, but nothing: no id, no method
 			parts = append(parts, `{"jsonrpc":"2.0"}`)
 		case "inv":
-			switch m.Var % 3 {
+			switch m.Var % 4 {
 			case 0:
 				parts = append(parts, fmt.Sprintf(`{"jsonrpc":"1.0","id":%s,"method":"h","params":{"tag":%q}}`, id, tag))
+				a["echo"] = normID(id)
+			case 3: // a call that is also a reply
+				extra := []string{`"result":0`, `"error":{"code":1,"message":"x"}`, `"result":null`}[len(tag)%3]
+				parts = append(parts, fmt.Sprintf(`{"jsonrpc":"2.0","id":%s,"method":"h","params":{"tag":%q},%s}`, id, tag, extra))
 				a["echo"] = normID(id)
 			case 1:
 				parts = append(parts, fmt.Sprintf(`{"jsonrpc":"2.0","id":%s,"method":"h","params":7}`, id))
